@@ -155,3 +155,14 @@ def inline_case(model: Model, call_node, new_nodes):
     else:
         res["detail"] = "different terms"
     return res
+
+
+def validate_case(model: Model, block_nodes, call_node):
+    """run the extracted validator on the exported (block, call) pair -> (verdict text, job)"""
+    ex = export.Exporter()
+    ex.erase_flags = True
+    blk = ex.stmts(block_nodes)
+    call = ex.stmt(call_node)
+    model.define(ex)
+    job = "(validate %s %s)" % (blk, call)
+    return model.ask(job), {"job": job, "defs": list(ex.defs)}
